@@ -695,6 +695,24 @@ func c08GenRSAx(r *vf.Rand, primeBits []int, e int) c08Mat {
 var c08BoundaryE = []int{2, 127, 128, 129, 251, 255, 256, 257, 32767, 32768, 32769, 65535, 65536, 65537, 8388607, 8388608,
 	8388609, 16777215, 16777216, 16777217, 1073741824, 2147483647}
 
+// rsaOth: RFC 7518 §6.3.2.7 — for each prime after the second: r_i, d_i = d mod (r_i - 1),
+// t_i = (r_1 … r_(i-1))^-1 mod r_i
+func (m c08Mat) rsaOth() [][3]*big.Int {
+	if !m.Priv || len(m.P) < 3 {
+		return nil
+	}
+	one := big.NewInt(1)
+	d := c08hex(m.D)
+	prod := new(big.Int).Mul(c08hex(m.P[0]), c08hex(m.P[1]))
+	var out [][3]*big.Int
+	for _, ph := range m.P[2:] {
+		r := c08hex(ph)
+		out = append(out, [3]*big.Int{r, new(big.Int).Mod(d, new(big.Int).Sub(r, one)), new(big.Int).ModInverse(prod, r)})
+		prod = new(big.Int).Mul(prod, r)
+	}
+	return out
+}
+
 // RSA members in the Base64urlUInt encoding and their values for m
 func (m c08Mat) rsaMembers() map[string]*big.Int {
 	out := map[string]*big.Int{"n": c08hex(m.N), "e": big.NewInt(int64(m.E))}
@@ -732,6 +750,13 @@ func c08RSAPool() []c08Mat {
 		// moduli and primes whose bit length is 0, 1, 7 (mod 8)
 		for _, pb := range [][]int{{256, 257}, {256, 263}, {255, 256}, {257, 263}, {249, 263}, {264, 264}} {
 			c08rsaPool = append(c08rsaPool, c08GenRSAx(r, pb, 65537))
+		}
+		// 3, 4 and 5 primes (RFC 7518 §6.3.2.7 "oth" with 1, 2, 3 entries), equal and unequal prime sizes
+		for _, pb := range [][]int{{192, 192, 192}, {160, 168, 177}, {128, 128, 128, 128}, {120, 129, 136, 151}, {144, 144, 152, 160},
+			{104, 104, 104, 104, 104}, {96, 105, 112, 127, 136}} {
+			for _, e := range []int{65537, 3} {
+				c08rsaPool = append(c08rsaPool, c08GenRSAx(r, pb, e))
+			}
 		}
 		// d, dp, dq, qi: search keys until every bit length class 0, 1, 7 (mod 8) occurred for each
 		need := map[string]bool{}
